@@ -182,16 +182,23 @@ class ExcelInPython:
         
     @staticmethod
     def _regexp(pattern: str):
-        pattern_flags = r'(?<![~])[?]+|[*]+'
-        for item in re.finditer(pattern_flags, pattern):
-            match item:
-                case item if '?' in item.group():
-                    pattern = pattern.replace(item.group(), '.' + '{{' + str(item.span()[1]-item.span()[0]) + '}}', 1)
-                case item if '*' in item.group():
-                    pattern = pattern.replace(item.group(), '.*', 1)
-        pattern = re.sub(r'(?<=~)[?*]', r'\\\\\g<0>', pattern)
-        pattern = re.sub(r'[\[\]]', r'\\\\\g<0>', pattern)
-        return pattern
+        # Excel pattern -> regular expression: ? is one character, * any run of characters, ~ makes the following
+        # ? * or ~ literal; every other character stands for itself (regex syntax inside the text has no meaning)
+        result = ''
+        index = 0
+        while index < len(pattern):
+            char = pattern[index]
+            if char == '~' and index + 1 < len(pattern) and pattern[index + 1] in '?*~':
+                index += 1
+                result += re.escape(pattern[index])
+            elif char == '?':
+                result += '.'
+            elif char == '*':
+                result += '.*'
+            else:
+                result += re.escape(char)
+            index += 1
+        return result
 
     @staticmethod
     def _binary_search(arr: List, lookup_value: any, reverse: bool = False):
